@@ -112,7 +112,7 @@ Theorem C06_learns_unfold : forall ak gamma sc st reset rs r,
   (fst (learns ak gamma sc (fst (rollouts ak gamma sc st0 rs)) r),
    snd (rollouts ak gamma sc st0 rs) :: snd (learns ak gamma sc (fst (rollouts ak gamma sc st0 rs)) r)).
 Proof. exact learns_cons. Qed.
-Print Assumptions C06_fragment_unscale.
+Print Assumptions C06_learns_unfold.
 
 Theorem C06_fragment_vec_flags : forall sc c,
   let st := snd (env_step sc c) in
